@@ -51,7 +51,7 @@ open VirVerif VirVerif.Generated
 theorem ctor_table_complete : ctorTableComplete families ctorRows = true := by decide +kernel
 
 /-- for every family, every subset of fixed parameters and every calling style (values before
-or after the `f_` keywords, positional values, no values at all): a fixed parameter *is* the fixed
+or after the `f_` keywords, positional values, every free parameter explicitly `f_<q>=None`, no values at all): a fixed parameter *is* the fixed
 value and is remembered as fixed, a free one is the given value / a literal default -/
 theorem ctor_fixed_wins : ctorRows.all ctorRowOk = true := by decide +kernel
 
@@ -191,6 +191,9 @@ example : ∃ r ∈ fitRows, r.fam = 9 ∧ r.fixed = [1] ∧
 example : fitTarget [] "floc" = some 0 ∧ fitTarget [] "fscale" = some 1 ∧ fitTarget [] "floc0" = none := by decide
 example : ∃ r ∈ ctorRows, r.fam = 9 ∧ r.fixed = [0] ∧ r.given = [] ∧
     r.result = some ([.farg 0, .int 1], [some (.farg 0), none]) := by decide +kernel
+/-- calling style 3 (`loc=…, scale=…, f_loc=…, f_scale=None`): the free parameter keeps its value, unmarked -/
+example : ∃ r ∈ ctorRows, r.fam = 9 ∧ r.fixed = [0] ∧ r.order = 3 ∧
+    r.result = some ([.farg 0, .arg 1], [some (.farg 0), none]) := by decide +kernel
 example : ∃ r ∈ ctorRows, r.fam = 6 ∧ r.fixed = [0] ∧ r.order = 1 ∧ ctorRowOk r = true := by
   decide +kernel
 example : ∃ r ∈ lsqRows, r.fam = 4 ∧ r.fixed = [2] ∧ r.ok = true ∧ r.kept = true := by decide +kernel
